@@ -64,18 +64,25 @@ def fAvcC (c : FragConfig) : Box :=
 
 def fHvcC (c : FragConfig) : Box :=
   let numArrays : UInt8 := if c.vps.isSome then 3 else 2
-  leaf "hvcC" ([1, 0, 0, 0, 0, 0, 0, 0, 0, 0, 0, 0, 0, 0, 0, 0, 0, 0, 0, 0, 0, 0x07, numArrays] ++
+  leaf "hvcC" ([1, c.sps.getD 3 1, 0x60, 0, 0, 0, 0x90, 0, 0, 0, 0, 0, c.sps.getD 14 93, 0xf0, 0x00, 0xfc, 0xfd, 0xf8, 0xf8,
+      0, 0, 0x07, numArrays] ++
     (match c.vps with
      | some v => [0xA0] ++ u16be 1 ++ u16be v.length ++ v
      | none => []) ++
     [0xA1] ++ u16be 1 ++ u16be c.sps.length ++ c.sps ++
     [0xA2] ++ u16be 1 ++ u16be c.pps.length ++ c.pps)
 
-def fAv1C (c : FragConfig) : Box := leaf "av1C" ([1, 0, 0] ++ (c.av1.getD []))
+/-- `Av1Config::default()` with the given sequence header bytes -/
+def av1Default (sh : Bytes) : Av1Config := ⟨sh, 0, 0, 0, false, false, false, true, true, 0⟩
+
+def fAv1C (c : FragConfig) : Box :=
+  let sh := c.av1.getD []
+  let parsed := match extractAv1 sh with | .some k => k | .none => av1Default []
+  leaf "av1C" (av1CRecord { parsed with sequenceHeader := sh })
 
 def fVpcC (c : FragConfig) : Box :=
   leaf "vpcC" (match c.vp9 with
-    | some v => [1, u8 v.profile, u8 v.level, u8 v.bitDepth, u8 v.colorSpace, u8 v.transfer, u8 v.matrix, u8 v.fullRange]
+    | some v => vpcCRecord v
     | none => [])
 
 def fSampleEntry (c : FragConfig) : Box :=
